@@ -357,22 +357,28 @@ def agentCallback (e : Evm) (p : Packet) : Option Evm :=
     | none => none
     | some e => some (credit e tok to amt)
 
-/-- `msg_server.Acknowledgement` after the proof of the acknowledgement has been verified
-(one transaction: any failure leaves the chain unchanged). In particular an error acknowledgement of a packet
+/-- `msg_server.Acknowledgement` after the proof of the acknowledgement has been verified, in the handler's order of
+effects: keeper `AcknowledgePacket` (commitment must match; it is deleted) → `setAckStatus` → resolve the relayer named
+in the acknowledgement in THIS chain's registry (`rel`, the result of `GetRelayerAddressOnTeleport`) → pay the relay fee
+to it → `OnAcknowledgePacket` (refund on an error code, callback). It is one transaction: ANY failure — an
+unresolvable relayer included — aborts it and leaves the chain unchanged (the acknowledgement can be relayed again). In particular an error acknowledgement of a packet
 WITHOUT transfer data makes `OnAcknowledgePacket` revert (`refund … none => none`: the endpoint contract decodes the
 empty transfer data), so that `MsgAcknowledgement` fails every time: the packet stays committed (pending) and its
 relay fee stays in escrow — an observation outside C03 (docs/C03-observation-call-only-ack.md), modelled as it is. -/
-def ackHandler (cfg : Cfg) (self : ChainId) (c : Chain) (p : Packet) (code : Nat) : Option Chain :=
+def ackHandler (cfg : Cfg) (self : ChainId) (c : Chain) (p : Packet) (code : Nat) (rel : Option Acct) : Option Chain :=
   if p.src ≠ self then none
   else if p ∉ c.commits then none                                  -- commitment must match
   else if !cfg.clients p.dst then none
   else
     let e := c.evm
     let e := { e with ackStatus := upd2 e.ackStatus p.dst p.seq (if code = 0 then 1 else 2) }   -- setAckStatus
+    match rel with                                   -- GetRelayerAddressOnTeleport(dstChain, ack.Relayer)
+    | none => none                                   -- ErrRelayerNotFound: the whole MsgAcknowledgement fails
+    | some relayer =>
     match debit e (e.fee p.dst p.seq).1 acPacket (e.fee p.dst p.seq).2 with                       -- sendPacketFeeToRelayer
     | none => none
     | some e1 =>
-      let e1 := credit e1 (e.fee p.dst p.seq).1 acRelayer (e.fee p.dst p.seq).2
+      let e1 := credit e1 (e.fee p.dst p.seq).1 relayer (e.fee p.dst p.seq).2
       let e1 := { e1 with feePaid := upd2 e1.feePaid p.dst p.seq (e1.feePaid p.dst p.seq + 1) }
       let r : Option Evm := if code = 0 then some e1 else refund cfg e1 p                         -- OnAcknowledgePacket
       match r with
@@ -383,9 +389,38 @@ def ackHandler (cfg : Cfg) (self : ChainId) (c : Chain) (p : Packet) (code : Nat
         | none => none
         | some e3 => some { c with evm := e3, commits := c.commits.erase p }
 
+/-- One entry of a chain's relayer registry (`RegisterRelayers` stores one per relayer address and REPLACES it):
+the relayer's account on this chain and, per counterparty chain, the name ("tag") it goes by there. `rank` is the
+position of the entry in the store's iteration order (byte order of the bech32 address; computed by the harness). -/
+structure RelayerEntry where
+  addr : Acct
+  rank : Nat
+  chains : List (ChainId × Nat)
+  deriving Repr
+
+abbrev Registry := List RelayerEntry       -- kept sorted by `rank`
+
+def Registry.put (r : Registry) (e : RelayerEntry) : Registry :=
+  let r := r.filter (fun x => x.addr != e.addr)
+  (r.filter (fun x => x.rank < e.rank)) ++ e :: (r.filter (fun x => ¬ x.rank < e.rank))
+
+/-- `GetRelayerAddressOnOtherChain(chain, signer)`: what the signer of a `MsgRecvPacket` is called on `chain`
+(first listed occurrence); it is written into the acknowledgement. -/
+def Registry.onOther (r : Registry) (chain : ChainId) (signer : Acct) : Option Nat :=
+  match r.find? (fun e => e.addr == signer) with
+  | none => none
+  | some e => (e.chains.find? (fun ct => ct.1 == chain)).map (·.2)
+
+/-- `GetRelayerAddressOnTeleport(chain, tag)`: the first registered relayer (store order) that lists `tag` for `chain`;
+it receives the relay fee. -/
+def Registry.onTeleport (r : Registry) (chain : ChainId) (tag : Nat) : Option Acct :=
+  (r.find? (fun e => e.chains.any (fun ct => ct.1 == chain && ct.2 == tag))).map (·.addr)
+
 structure World where
   cfg : ChainId → Cfg
   chains : ChainId → Chain
+  reg : ChainId → Registry                       -- relayer registry of every chain (governance; changes at any time)
+  ackTag : ChainId → ChainId → Nat → Nat         -- (dst, src, seq) ↦ relayer name written into the acknowledgement on dst
 
 def World.set (w : World) (i : ChainId) (c : Chain) : World := { w with chains := upd1 w.chains i c }
 
@@ -394,12 +429,13 @@ def findPacket (l : List Packet) (dst : ChainId) (seq : Nat) : Option Packet :=
 
 inductive Step
   | send (c : ChainId) (sender : Acct) (a : SendArgs)
-  | recv (src dst : ChainId) (seq : Nat)     -- relayer: deliver the packet committed on `src` to `dst`
+  | recv (src dst : ChainId) (seq : Nat) (signer : Acct)   -- relayer `signer`: deliver the packet committed on `src` to `dst`
   | ack (src dst : ChainId) (seq : Nat)      -- relayer: deliver the acknowledgement written on `dst` to `src`
   | mint (c : ChainId) (t : Token) (who : Acct) (n : Nat)    -- an origin token's own minter (no bridge state involved)
   | approve (c : ChainId) (t : Token) (who : Acct) (n : Nat) -- ERC-20 `approve(endpoint, n)` by an account
   | transfer (c : ChainId) (t : Token) (src dst : Acct) (n : Nat)  -- an ordinary token / coin transfer between accounts
   | batch (c : ChainId) (sender : Acct) (strict : Bool) (legs : List Leg)   -- one transaction, several crossChainCalls
+  | register (c : ChainId) (addr : Acct) (rank : Nat) (chains : List (ChainId × Nat))   -- RegisterRelayers on chain c
   deriving Repr
 
 /-- One step; a rejected message leaves the world unchanged. -/
@@ -408,13 +444,16 @@ def step (fixed : Bool) (w : World) : Step → World
     match send (w.cfg i) i (w.chains i) sender a with
     | none => w
     | some c => w.set i c
-  | .recv src dst seq =>
+  | .recv src dst seq signer =>
     match findPacket (w.chains src).commits dst seq with
     | none => w
     | some p =>
-      match recvHandler fixed (w.cfg dst) dst (w.chains dst) p with
+      match (w.reg dst).onOther src signer with          -- the signer must be a relayer registered for the source chain
       | none => w
-      | some c => w.set dst c
+      | some tag =>
+        match recvHandler fixed (w.cfg dst) dst (w.chains dst) p with
+        | none => w
+        | some c => { w.set dst c with ackTag := fun d s q => if d = dst ∧ s = src ∧ q = seq then tag else w.ackTag d s q }
   | .ack src dst seq =>
     match findPacket (w.chains src).commits dst seq with
     | none => w
@@ -422,7 +461,7 @@ def step (fixed : Bool) (w : World) : Step → World
       match (w.chains dst).acks src seq with
       | none => w
       | some code =>
-        match ackHandler (w.cfg src) src (w.chains src) p code with
+        match ackHandler (w.cfg src) src (w.chains src) p code ((w.reg src).onTeleport dst (w.ackTag dst src seq)) with
         | none => w
         | some c => w.set src c
   | .mint i t who n =>
@@ -443,6 +482,9 @@ def step (fixed : Bool) (w : World) : Step → World
     match batch (w.cfg i) i (w.chains i) sender strict legs with
     | none => w
     | some c => w.set i c
+
+  | .register i addr rank chains =>
+    { w with reg := upd1 w.reg i ((w.reg i).put { addr := addr, rank := rank, chains := chains }) }
 
 def run (fixed : Bool) (w : World) (steps : List Step) : World := steps.foldl (step fixed) w
 
